@@ -28,7 +28,7 @@ CHECKS.update({
 CHECKS.update({
     "C01": dict(
         text="Lean 4 theorems: every single graph transformation (insert QUANTIZE / insert DEQUANTIZE / quantize tensor) preserves the decidable well-formedness predicate WF.modelOK (indices in range, unique names, single producer, valid execution order, valid graph/signature I/O); the whole transformation performer with its op-id maps preserves it for consistent chain-free instruction lists (performer_wf); instruction generation + performer preserve it for every request set of the closed shape the registered algorithms produce (modify_wf); inserted names are fresh, opcode indices valid. The interpreter clause is executed in a sandboxed child on every generated case.",
-        note="end-to-end theorem C01.quantize_wf: for every model/recipe state in the converter normal form NF (QProofs/PipelineWF.NF: well-formed tagged input, no blockwise weights, graph inputs not constants, slot-role/mandatory-operand conditions), every regex semantics and statistics, quantize() raises or returns a WF.modelOK graph; the pipeline correspondence additionally evaluates WF.modelOK on the model's own output for every generated case (also outside NF); C01b (runtime clause at the level of operand TYPES): every operator of the output has a signature of the explicit, ASSUMED kernel table KernelSig.accepts (kernel_signatures_ok; hypotheses NF, no skip_checks, float input, runtime data operands, constant 16-bit convolution weights -- the last two necessary: closed witnesses replayed as runtime failures, finding D39); the table is a definition validated by execution (the driver evaluates it on every output, the same bytes are allocated and invoked in the interpreter), never proved; parameter-level kernel constraints (findings D26, D29, D33) and the operator-replacing BLOCKWISE transformation (probe only; findings D37, fixed D38/D40) are outside the theorem; interpreter allocate/invoke is runtime behaviour (executed, not proved)",
+        note="end-to-end theorem C01.quantize_wf: for every model/recipe state in the converter normal form NF (QProofs/PipelineWF.NF: well-formed tagged input, no blockwise weights, graph inputs not constants, slot-role/mandatory-operand conditions), every regex semantics and statistics, quantize() raises or returns a WF.modelOK graph; the pipeline correspondence additionally evaluates WF.modelOK on the model's own output for every generated case (also outside NF); C01b (runtime clause at the level of operand TYPES): every operator of the output has a signature of the explicit, ASSUMED kernel table KernelSig.accepts (kernel_signatures_ok; hypotheses NF, no skip_checks, float input, runtime data operands, constant 16-bit convolution weights -- the last two necessary: closed witnesses replayed as runtime failures, finding D39); the table is a definition validated by execution (the driver evaluates it on every output, the same bytes are allocated and invoked in the interpreter), never proved; parameter-level kernel constraints (findings D26, D29, D33) are outside the theorem; C01c: the operator-replacing transformation for BLOCKWISE weights (emulated_subchannel.py) is modelled on its own (QModel/Emulated.lean, correspondence family fam_emulated: the real function on its own TransformationInput vs the model, field by field) and proved to preserve WF.modelOK with the frame and op-id bookkeeping the performer assumes (emulated_wf, _frame, _bookkeeping, _result_tensor, _tensors; hypotheses one result, non-negative tensor id, constant weight, each necessary) -- its integration into the performer and the blockwise arithmetic are exercised by the BLOCKWISE probe only (findings D37, D41; fixed D38, D40); interpreter allocate/invoke is runtime behaviour (executed, not proved)",
         design="§6 C01",
     ),
     "C02": dict(
@@ -44,7 +44,7 @@ CHECKS.update({
     ),
     "C04": dict(
         text="Lean 4 theorems: bias parameters (scale = input scale x weight scale per channel, zero point 0, 32/64 bit), fixed output ranges of softmax/logistic/tanh, parameters handed to another runtime tensor are carried unchanged (same-as-input / same-as-output rules), plus C17's scalar laws under IEEE rounding (positive finite scale, zero point in range, symmetric => 0). Materialisation compared bit-exactly with the code; independent oracle re-derives the reference parameters from statistics the check recomputes with its own interpreter run.",
-        note="END TO END (QProps/C04c): every tensor of quantizePure's output that carries parameters -- originals, constants, outputs of inserted QUANTIZE ops -- carries (values-equal to) the reference formula on the statistics in force when its producer / reader was materialised (the caller's entry, or what a same-as-input / fixed-range operator wrote back), lent parameters, the fixed range, or quantizeBias of the reader's data and weight parameters (quantized_tensor_params, param_kinds, stats_in_force); well formed or a bias (output_params_wellformed); per-channel only on constants of weight operators on the kernel's dimension or biases; same-scale operators, concatenation, fixed ranges and the bias rule as they appear in the output (same_scale_ops_in_output, concat_inputs_in_output, fixed_range_in_output, bias_in_output). Per operator: C04b (constants use their TRUE min/max whatever the statistics dictionary holds: false before repair D36). Not claimed: positivity of a bias scale in general (the float product of two scales may underflow; excluded for generated scales by the 1e-4 floor, C08d)",
+        note="END TO END (QProps/C04c): every tensor of quantizePure's output that carries parameters -- originals, constants, outputs of inserted QUANTIZE ops -- carries (values-equal to) the reference formula on the statistics in force when its producer / reader was materialised (the caller's entry, or what a same-as-input / fixed-range operator wrote back), lent parameters, the fixed range, or quantizeBias of the reader's data and weight parameters (quantized_tensor_params, param_kinds, stats_in_force); well formed or a bias (output_params_wellformed); per-channel only on constants of weight operators on the kernel's dimension or biases; same-scale operators, concatenation, fixed ranges and the bias rule as they appear in the output (same_scale_ops_in_output, concat_inputs_in_output, fixed_range_in_output, bias_in_output). Per operator: C04b (constants use their TRUE min/max whatever the statistics dictionary holds: false before repair D36). granularity BLOCKWISE (skip_checks only) is probed against a per-block reference and is NOT honoured by the library (finding D41: one scale per output channel). Not claimed: positivity of a bias scale in general (the float product of two scales may underflow; excluded for generated scales by the 1e-4 floor, C08d)",
         design="§6 C04",
     ),
     "C05": dict(
